@@ -6,6 +6,7 @@
 import SonicSpec.Model.OptsRel
 namespace SonicSpec.Driver.Opts
 open SonicSpec SonicSpec.Json SonicSpec.Opts
+open SonicSpec.Str (htmlEscape correctWith)
 
 def sentinel64 : Bytes := "7.25e+77".toUTF8.toList
 def sentinel32 : Bytes := "7.25e+27".toUTF8.toList
@@ -162,6 +163,14 @@ def relU (name : String) (on : List String) (dest : String) (doc : Bytes) (a b :
     | "CopyString" => if valid then same "CopyString changed the result on valid data" else .skip "invalid data"
     | "NoValidateJSONSkip" => if valid then same "NoValidateJSONSkip changed the result on valid data" else .skip "invalid data"
     | "UseNumber" | "UseInt64" =>
+      -- both modes at once: where that does not panic (`P:`, judged by the orchestrator), UseNumber wins,
+      -- as with the Decoder setters called in the documented order
+      if name == "UseInt64" && on.contains "UseNumber" then
+        (match a, b with
+         | .panic _, _ => .skip "both number modes"
+         | _, .panic _ => .skip "both number modes"
+         | _, _ => same "UseInt64 changed a result although UseNumber is on")
+      else
       let m := if name == "UseNumber" then NumMode.number else NumMode.int64
       match a, b with
       | .panic _, _ => .skip "both number modes"
@@ -278,7 +287,10 @@ def handle : List String → Option String
     match parseWires wires with
     | none => some "model=unsupported"
     | some ws =>
-      if fieldOnIn fs c "UseInt64" && fieldOnIn fs c "UseNumber" then some "model=P:both_number_modes"
+      if fieldOnIn fs c "UseInt64" && fieldOnIn fs c "UseNumber" then
+        -- `resolved` = the decoder word with UseInt64's own bit taken out again (UseNumber wins)
+        let i64 := (ws.filter (fun w => wWord w == "decoderOpts" && wField w == "UseInt64")).foldl (fun acc w => acc ||| wMask w) 0
+        some s!"model=P:both_number_modes\tresolved={(frozeIn fs ws c).1}:{(frozeIn fs ws c).2 &&& (all64 ^^^ i64)}"
       else some s!"model={(frozeIn fs ws c).1}:{(frozeIn fs ws c).2}"
   | ["setseq", recv, calls, setters] =>
     match parseSetters setters with
